@@ -29,6 +29,8 @@ CONFIGS = {
     "wingbox_sym": dict(model="wingbox", sym=True, relief=False),
     # point mass + engine thrust + weight relief (the inertial loads scale with the load factor of each flight point)
     "tube_sym_pm": dict(model="tube", sym=True, relief=True, pm=True),
+    # right-half symmetric mesh (root node first) with an interior chordwise row of mesh nodes
+    "tube_right_nx3": dict(model="tube", sym=True, relief=True, side="right", nx=3),
 }
 
 
@@ -36,7 +38,7 @@ def pm_of(cfg):
     if not CONFIGS[cfg].get("pm"):
         return None
     return dict(point_masses=[600.0], engine_thrusts=[5.0e3], point_mass_locations=[[1.1, -2.3, -0.35]])
-CELLS = [("aitken", "direct"), ("nlbgs", "direct"), ("newton", "direct"), ("newton", "lbgs"), ("newton", "krylov_plain")]
+CELLS = [("aitken", "direct"), ("nlbgs", "direct"), ("newton", "direct"), ("newton", "lbgs"), ("newton", "krylov_plain"), ("aitken_f07", "direct"), ("nlbgs_apply", "direct")]
 POINTS = [
     {"alpha": 4.0, "v": 100.0, "load_factor": 1.3, "wing.twist_cp": [2.0, 3.0, 1.0]},
     # P1 differs from P0 in the flight condition ONLY (same geometry and structure): a value cached on the structure alone
@@ -50,7 +52,11 @@ def states(tier, seed):
     fam = seed % 3
     st = []
     cfgs = ["tube_sym", "wingbox_sym_relief"] if tier == "quick" else list(CONFIGS)
-    for c, (nl, lin), guess, order in itertools.product(cfgs, CELLS, ["default", "scaled"], list(itertools.permutations(range(3)))):
+    # initial guesses: the state left by the previous point; ten times the displacement state; the WHOLE state vector of the
+    # coupled group (every output, as a restart from a stored case would set it) scaled by 0.8
+    for c, (nl, lin), guess, order in itertools.product(cfgs, CELLS, ["default", "scaled", "allstate"], list(itertools.permutations(range(3)))):
+        if guess == "allstate" and tier == "quick" and (lin != "direct" or c != cfgs[0]):
+            continue
         st.append(dict(part="path", cfg=c, nl=nl, lin=lin, guess=guess, order=list(order), fam=fam))
     for c in cfgs if tier == "quick" else list(CONFIGS):
         for k in range(3):
@@ -59,6 +65,10 @@ def states(tier, seed):
         st.append(dict(part="multi", cfg=c, npts=npts, rev=rev, fam=fam))
     for order in itertools.permutations(range(3)):
         st.append(dict(part="path", cfg="tube_sym_pm", nl="nlbgs", lin="direct", guess="default", order=list(order), fam=fam))
+        st.append(dict(part="path", cfg="tube_right_nx3", nl="newton", lin="lbgs", guess="default", order=list(order), fam=fam))
+    for k in range(3):
+        st.append(dict(part="fixed", cfg="tube_right_nx3", k=k, fam=fam))
+    st.append(dict(part="multi", cfg="tube_right_nx3", npts=2, rev=False, fam=fam))
     for c in cfgs:
         st.append(dict(part="stiff", cfg=c, fam=fam))
     return st, 0
@@ -67,7 +77,7 @@ def states(tier, seed):
 def surface(cfg, fam, E_scale=1.0):
     c = CONFIGS[cfg]
     ny = 3 if c["sym"] else 5
-    m = gen.make_mesh("twdi", 2, ny, "left" if c["sym"] else "full", fam, asym=not c["sym"], span=10.0, chord=1.6)
+    m = gen.make_mesh("twdi", c.get("nx", 2), ny, c.get("side", "left") if c["sym"] else "full", fam, asym=not c["sym"], span=10.0, chord=1.6)
     kw = dict(struct_weight_relief=c["relief"], with_viscous=True, twist_cp=np.array([2.0, 3.0, 1.0]))
     if c.get("pm"):
         kw["n_point_masses"] = 1
@@ -119,6 +129,11 @@ def part_path(s):
             # a deliberately bad initial guess: ten times the current displacement state (or a non-zero one at the start)
             d = p["AS_point_0.coupled.wing.disp"]
             p.set_val("AS_point_0.coupled.wing.disp", 10.0 * d + (0.01 if step == 0 else 0.0))
+        elif s["guess"] == "allstate":
+            if step == 0:
+                p.run_model()  # something to restart from
+            vec = p.model.AS_point_0.coupled._outputs
+            vec.set_val(0.8 * vec.asarray())
         try:
             p.run_model()
         except om.AnalysisError as e:
